@@ -183,7 +183,7 @@ def _scaled(case):
 
 
 def run_history(case, ctx):
-    ctx.label("unit:%g" % case.get("unit", 1.0))
+    ctx.label("unit:%g" % case.get("machine_unit", case.get("unit", 1.0)))
     case = _scaled(case)
     init = case["init"]
     wt, wp = I.w_const, {"value": 1.0}
@@ -296,6 +296,149 @@ def slice_cases():
                                ops=[{"op": "pixel", "val": s}])
 
 
+def imager_machine(record):
+    """Hypothesis rule-based state machine: the rules drive a LIVE imager and draw their arguments from its current state (ranges a
+    fraction of a pixel away from the present ones, pixel sizes that divide the present extent with or without remainder, fits on data
+    lying exactly on the present borders); every operation is appended, with its concrete values, to a history in the format of the
+    data-driven clauses, and the finished history is judged step by step by run_history on a fresh object (so the replay file is again
+    just the history). An exception raised by the live object ends the history there; run_history then reports it properly."""
+    from hypothesis.stateful import RuleBasedStateMachine, initialize, precondition, rule
+
+    FR = [0.0, 0.5, 1.0, 1.0 / 3.0, 0.25, 1e-9, 0.999999999, 2.0, 0.1, 0.7]
+
+    class ImagerMachine(RuleBasedStateMachine):
+        def __init__(self):
+            super().__init__()
+            self.case = None
+            self.imgr = None
+            self.dead = False
+
+        @initialize(s0=pixel(), u=st.sampled_from([1.0, 1.0, 1.0, 1e-10, 1e-6, 1e3, 1e8, 3.7e-5]), data=st.data())
+        def construct(self, s0, u, data):
+            # every length of the history is expressed in a generated absolute unit (the recorded values are the concrete, scaled ones)
+            self.u = u
+            s = s0 * u
+            br, pr = [float(x) * u for x in data.draw(rng_for(s0))], [float(x) * u for x in data.draw(rng_for(s0))]
+            self.case = {"init": {"birth_range": br, "pers_range": pr, "pixel": s}, "ops": [],
+                         "probe": [data.draw(finite(0.0, 0.999)), data.draw(finite(0.0, 0.999))], "unit": 1.0, "machine": True, "machine_unit": u}
+            try:
+                self.imgr = PersistenceImager(birth_range=tuple(br), pers_range=tuple(pr), pixel_size=s, weight=I.w_const, weight_params={"value": 1.0},
+                                              kernel="uniform", kernel_params={"width": s / 2.0, "height": s / 2.0})
+            except Exception:  # noqa: BLE001 - reported by run_history at teardown
+                self.dead = True
+
+        def alive(self):
+            return self.case is not None and not self.dead and len(self.case["ops"]) < 30
+
+        def _affordable(self, br, pr, s):
+            nb, npx = (br[1] - br[0]) / s, (pr[1] - pr[0]) / s
+            return s > 0 and br[1] > br[0] and pr[1] > pr[0] and (nb + 1) * (npx + 1) <= 40000 and max(nb, npx) <= 6000
+
+        def _do(self, op, fn):
+            self.case["ops"].append(op)
+            try:
+                fn()
+            except Exception:  # noqa: BLE001
+                self.dead = True
+
+        @precondition(lambda self: self.alive())
+        @rule(axis=st.sampled_from(["birth", "pers"]), a=st.integers(-3, 3), b=st.integers(-3, 3), fa=st.sampled_from(FR), fb=st.sampled_from(FR))
+        def move_range_by_pixel_fractions(self, axis, a, b, fa, fb):
+            im = self.imgr
+            cur = im.birth_range if axis == "birth" else im.pers_range
+            s = im.pixel_size
+            new = [float(cur[0] + a * fa * s), float(cur[1] + b * fb * s)]
+            other = im.pers_range if axis == "birth" else im.birth_range
+            if not self._affordable(new, other, s):
+                return
+            self._do({"op": axis + "_range", "val": new, "via": "move_range_by_pixel_fractions"}, lambda: setattr(im, axis + "_range", tuple(new)))
+
+        @precondition(lambda self: self.alive())
+        @rule(axis=st.sampled_from(["birth", "pers"]), k=st.integers(1, 14), rem=st.sampled_from([0.0, 0.0, 0.5, 1.0 / 3.0, 1e-9, -1e-9]))
+        def pixel_dividing_the_extent(self, axis, k, rem):
+            im = self.imgr
+            ext = im.width if axis == "birth" else im.height
+            val = float(ext / (k + rem))
+            if not self._affordable(im.birth_range, im.pers_range, val):
+                return
+            self._do({"op": "pixel", "val": val, "via": "pixel_dividing_the_extent"}, lambda: setattr(im, "pixel_size", val))
+
+        @precondition(lambda self: self.alive())
+        @rule(axis=st.sampled_from(["birth", "pers"]), m=st.sampled_from([4095, 4096, 4097, 5000, 1000, 2500]))
+        def one_long_axis(self, axis, m):
+            """thousands of pixels along one axis next to a short other axis (cost stays low, pixel counts do not)"""
+            im = self.imgr
+            s = im.pixel_size
+            cur = im.birth_range if axis == "birth" else im.pers_range
+            other = im.pers_range if axis == "birth" else im.birth_range
+            new = [float(cur[0]), float(cur[0] + m * s)]
+            if not self._affordable(new, other, s):
+                return
+            self._do({"op": axis + "_range", "val": new, "via": "one_long_axis"}, lambda: setattr(im, axis + "_range", tuple(new)))
+
+        @precondition(lambda self: self.alive())
+        @rule(val=pixel())
+        def set_pixel(self, val):
+            im = self.imgr
+            val = val * self.u
+            if not self._affordable(im.birth_range, im.pers_range, val):
+                return
+            self._do({"op": "pixel", "val": val}, lambda: setattr(im, "pixel_size", val))
+
+        @precondition(lambda self: self.alive())
+        @rule(axis=st.sampled_from(["birth", "pers"]), data=st.data())
+        def set_range(self, axis, data):
+            im = self.imgr
+            new = [float(x) * self.u for x in data.draw(rng_for(im.pixel_size / self.u))]
+            other = im.pers_range if axis == "birth" else im.birth_range
+            if not self._affordable([float(new[0]), float(new[1])], other, im.pixel_size):
+                return
+            self._do({"op": axis + "_range", "val": new}, lambda: setattr(im, axis + "_range", tuple(new)))
+
+        @precondition(lambda self: self.alive())
+        @rule(skew=st.booleans(), inner=st.lists(st.tuples(finite(0.0, 1.0), finite(0.0, 1.0)), min_size=0, max_size=3), single=st.booleans(),
+              grow=st.sampled_from([0.0, 0.0, 0.5, 1.0, 1e-9]))
+        def fit_on_the_present_borders(self, skew, inner, single, grow):
+            """data whose extreme births / persistences are exactly the present range ends (optionally pushed out by a pixel fraction)"""
+            im = self.imgr
+            (b0, b1), (p0, p1), s = im.birth_range, im.pers_range, im.pixel_size
+            b1, p1 = b1 + grow * s, p1 + grow * s
+            if p0 < 0:
+                return
+            bp = [[b0, p0], [b1, p1]] + [[b0 + u * (b1 - b0), p0 + v * (p1 - p0)] for u, v in inner]
+            if not self._affordable([b0, b1], [p0, p1], s):
+                return
+            # the history format stores birth-death pairs; with skew=False the interpreter hands the same numbers over as birth-persistence
+            pts = [[float(b), float(b + p)] for b, p in bp] if skew else [[float(b), float(p)] for b, p in bp]
+            if any(q[1] < q[0] for q in pts):
+                return
+            op = {"op": "fit", "dgms": [pts], "single": single, "skew": skew, "forms": ["float"], "via": "fit_on_the_present_borders"}
+            arr = np.array(pts, dtype=float)
+            ps = ((arr[:, 1] - arr[:, 0]) if skew else arr[:, 1]).tolist()
+            if not (max(ps) > min(ps) and arr[:, 0].max() > arr[:, 0].min()):
+                return
+            self._do(op, lambda: im.fit(arr if single else [arr], skew=skew))
+
+        @precondition(lambda self: self.alive())
+        @rule(data=st.data())
+        def fit_generated(self, data):
+            im = self.imgr
+            fd = data.draw(fit_data(im.pixel_size / self.u))
+            fd["dgms"] = [[[float(q[0]) * self.u, float(q[1]) * self.u] for q in d] for d in fd["dgms"]]
+            arrays = [np.array(d, dtype=float) for d in fd["dgms"]]
+            bs = [v for a in arrays for v in a[:, 0].tolist()]
+            ps = [v for a in arrays for v in ((a[:, 1] - a[:, 0]) if fd["skew"] else a[:, 1]).tolist()]
+            if not (max(bs) > min(bs) and max(ps) > min(ps)) or not self._affordable([min(bs), max(bs)], [min(ps), max(ps)], im.pixel_size):
+                return      # outside the stated domain (no positive extent) or beyond the cost bound: not part of the history
+            self._do(dict(fd, op="fit", forms=["float"] * len(arrays)), lambda: im.fit(arrays[0] if (fd["single"] and len(arrays) == 1) else arrays, skew=fd["skew"]))
+
+        def teardown(self):
+            if self.case is not None:
+                record(self.case)
+
+    return ImagerMachine
+
+
 def VALID_DEFAULT(case):
     try:
         i = case["init"]
@@ -331,6 +474,10 @@ CLAUSES = [
                 "not an integer or not exactly representable"),
     Clause("long_history", history(20), run_history, quick=800, thorough=16000,
            rule="as history with up to 20 operations"),
+    Clause("state_machine", machine=imager_machine, machine_steps=14, check=run_history, quick=1600, thorough=16000,
+           rule="hypothesis.stateful.RuleBasedStateMachine driving a live imager: rules draw their arguments from the CURRENT state (ranges moved by "
+                "pixel fractions incl. 1e-9 and 1/3, pixel sizes dividing the present extent with remainders 0, 1/2, 1/3, +-1e-9, fits on data lying exactly "
+                "on the present borders), up to 14 steps; the recorded history is judged step by step like every other history; non-trivial as above"),
     Clause("decimal_slice", cases=slice_cases, check=run_history,
            rule="EXHAUSTIVE over the table: constructor / pers_range setter / pixel_size setter for every (pixel size, decimal, multiplier 1..12, "
                 "offset 0 or 0.1) with 0.05 <= extent/pixel <= 64"),
